@@ -32,7 +32,7 @@ def check_case(case):
     else:  # mux without a live input, next to a live shared source
         spec = mux_spec([tuple(x) for x in case["inputs"]], case["pal"], case["rs_list"], below="deep", mux_pc=case.get("mux_pc"))
     s, obs = phys.solve_and_check(res, spec, WANT)
-    if obs is not None and fam == "phase" and case.get("rails", True):
+    if obs is not None and fam == "phase" and (len(spec["comps"]) <= 3 or case["pc"] == ["zz"] or len(case["f"]) == 1):
         # the same system with a rail on every non-load component: a dead rail must be reported at 0 V in exactly the phases in which it is dead
         import copy
         from ..sysmodel import LOADS, build, g
